@@ -286,6 +286,41 @@ def parameter_programs():
     return out
 
 
+def capture_programs():
+    """runnable programs in which an expression is evaluated in another scope than the one it is written next to (defaults,
+    annotations, decorators, base classes, the first iterable of a comprehension), in which a class body declares a name
+    global / nonlocal or reads a local of the enclosing function, and the capture idiom `name=name`; with the inner and the
+    outer name spelt alike, so that attaching a reference to the wrong scope changes what the program prints"""
+    out = []
+    for n in ('index_value', 'A', 'B'):
+        d = {'n': n}
+        progs = [
+            ('kwonly-default', 'def make_callbacks(count_value):\n    callbacks = []\n    for %(n)s in range(count_value):\n        def callback(*, %(n)s=%(n)s):\n            return %(n)s * %(n)s + %(n)s\n        callbacks.append(callback)\n    return [each_callback() for each_callback in callbacks]\nprint(make_callbacks(3))\n'),
+            ('positional-default', 'def make_callbacks(count_value):\n    callbacks = []\n    for %(n)s in range(count_value):\n        def callback(%(n)s=%(n)s):\n            return %(n)s * %(n)s + %(n)s\n        callbacks.append(callback)\n    return [each_callback() for each_callback in callbacks]\nprint(make_callbacks(3))\n'),
+            ('lambda-default', 'def make_callbacks(count_value):\n    callbacks = [lambda %(n)s=%(n)s: %(n)s + %(n)s for %(n)s in range(count_value)]\n    later = []\n    for %(n)s in range(count_value):\n        later.append(lambda *, %(n)s=%(n)s: %(n)s * 3)\n    return [each_callback() for each_callback in callbacks + later]\nprint(make_callbacks(3))\n'),
+            ('kwonly-default-of-parameter', 'def make_formatter(%(n)s):\n    def formatter(value_item, *, %(n)s=%(n)s, other_option=None):\n        return str(%(n)s) + str(value_item) + str(%(n)s) + str(other_option)\n    %(n)s = %(n)s + %(n)s\n    return formatter\nprint(make_formatter("<")("x"), make_formatter("[")("y", other_option=1))\n'),
+            ('default-mentions-other-parameter-name', 'def outer_function(first_value, second_value):\n    def inner_function(%(n)s=first_value, *, second_value=second_value, third_value=(first_value, second_value)):\n        return %(n)s, second_value, third_value\n    first_value = second_value = None\n    return inner_function()\nprint(outer_function(1, 2))\n'),
+            ('async-kwonly-default', 'import asyncio\ndef make_coroutines(count_value):\n    made = []\n    for %(n)s in range(count_value):\n        async def coroutine(*, %(n)s=%(n)s):\n            return %(n)s + %(n)s\n        made.append(coroutine)\n    return made\nprint([asyncio.run(each()) for each in make_coroutines(3)])\n'),
+            ('annotation-in-enclosing-scope', 'def outer_function(%(n)s):\n    def inner_function(value_item: %(n)s = %(n)s, *, other_item: %(n)s = %(n)s) -> %(n)s:\n        %(n)s = value_item\n        return %(n)s, other_item\n    return inner_function(), inner_function.__annotations__\nprint(outer_function(int))\n'),
+            ('decorator-in-enclosing-scope', 'def outer_function(%(n)s):\n    @%(n)s\n    def inner_function(%(n)s=2):\n        return %(n)s\n    return inner_function\nprint(outer_function(lambda function_value: function_value() + 1))\n'),
+            ('class-global-read', '%(n)s = "module level"\ndef make_class():\n    %(n)s = "local of make_class"\n    consume = [%(n)s, %(n)s, %(n)s]\n    class Holder:\n        global %(n)s\n        seen = %(n)s\n        again = [%(n)s, %(n)s]\n    return consume, Holder.seen, Holder.again\nprint(make_class())\n'),
+            ('class-global-read-two-deep', '%(n)s = "module level"\ndef make_class(%(n)s):\n    def middle_function():\n        class Holder:\n            global %(n)s\n            seen = (%(n)s, %(n)s)\n        return Holder.seen\n    return middle_function(), %(n)s, %(n)s\nprint(make_class("parameter"))\n'),
+            ('class-global-assign', '%(n)s = "module level"\ndef make_class():\n    %(n)s = "local of make_class"\n    class Holder:\n        global %(n)s\n        %(n)s = "set by the class body"\n        seen = %(n)s\n    return %(n)s, %(n)s, Holder.seen\nprint(make_class(), %(n)s)\n'),
+            ('class-nonlocal-read', 'def make_class():\n    %(n)s = "local of make_class"\n    class Holder:\n        nonlocal %(n)s\n        seen = [%(n)s, %(n)s]\n        %(n)s = "set by the class body"\n    return %(n)s, Holder.seen, hasattr(Holder, "%(n)s")\nprint(make_class())\n'),
+            ('class-free-read', 'def make_class(%(n)s):\n    class Holder:\n        seen = [%(n)s, %(n)s, %(n)s]\n        def method(self):\n            return %(n)s\n    return Holder.seen, Holder().method(), %(n)s\nprint(make_class("parameter"))\n'),
+            ('class-local-same-spelling', 'def make_class(%(n)s):\n    class Holder:\n        %(n)s = "class level"\n        after = %(n)s\n        def method(self):\n            return %(n)s\n    return Holder.after, Holder().method(), Holder.%(n)s\nprint(make_class("parameter"))\n'),
+            ('class-bases-in-enclosing-scope', 'def make_class(%(n)s):\n    class Holder(%(n)s, metaclass=type(%(n)s)):\n        %(n)s = 1\n    return Holder.__mro__[1].__name__, Holder.%(n)s\nprint(make_class(dict))\n'),
+            ('comprehension-first-iterable', 'def outer_function(%(n)s):\n    return [%(n)s * 2 for %(n)s in %(n)s], [other_item for other_item in %(n)s for %(n)s in [other_item]], %(n)s\nprint(outer_function([1, 2]))\n'),
+            ('genexp-first-iterable-in-class', 'def outer_function(%(n)s):\n    class Holder:\n        %(n)s = [5, 6]\n        made = list(item_value + 1 for item_value in %(n)s)\n    return Holder.made, %(n)s\nprint(outer_function([1, 2]))\n'),
+            ('walrus-in-comprehension', 'def outer_function(values_list):\n    %(n)s = 0\n    doubled = [(%(n)s := each_value * 2) for each_value in values_list]\n    return doubled, %(n)s, %(n)s\nprint(outer_function([1, 2, 3]))\n'),
+            ('except-name-same-spelling', 'def outer_function(%(n)s):\n    try:\n        raise ValueError(%(n)s)\n    except ValueError as %(n)s:\n        seen = str(%(n)s) + str(%(n)s)\n    return seen\nprint(outer_function("message"))\n'),
+            ('match-capture-same-spelling', 'def outer_function(%(n)s):\n    match %(n)s:\n        case [first_item, *%(n)s]:\n            return first_item, %(n)s, %(n)s\n        case {"key": %(n)s}:\n            return %(n)s\n    return %(n)s\nprint(outer_function([1, 2, 3]), outer_function({"key": 4}), outer_function(5))\n'),
+        ]
+        for kind, template in progs:
+            out.append(('capture/%s/%s' % (kind, n), template % d))
+    return out
+
+
 def private_name_programs():
     """identifiers of the form __name inside a class are mangled to _Class__name by the compiler: inside the class they are
     different names from an outer __name, and they depend on the spelling of the class name"""
